@@ -74,6 +74,16 @@ CHECKS["C15"] = dict(
     technique="Lean 4 invariants by induction over operation histories of a literal model of rtr_mgr.c + differential correspondence",
     design="§5 C15")
 
+CHECKS["C19"] = dict(
+    text="Proof: for all 2^32 IPv4 and all 2^128 IPv6 addresses the text produced parses back to the same address (fmt4_parse4, fmt6_parse6: case "
+         "analysis over every zero-run position/length with symbolic words, embedded-IPv4 forms included); the formatter's output lies in the RFC 4291 text "
+         "language and every string of that language (= what the inet_pton model accepts) is parsed to its value; the parser never reads a word it has not "
+         "written (parse6_defined) so the result depends only on the text; conversion writes at most the given length. Tie: library vs model vs real "
+         "inet_pton/inet_ntop on formatted addresses, grammar-generated strings, mutations, all buffer lengths 0..50 with canaries, two stack poisonings.",
+    note=TB + "glibc sscanf(%3hhu)/snprintf/sprintf(%x) and inet_pton are modelled by small Lean functions validated differentially on every run (completeness of the inet_pton recogniser is differential, not proved).",
+    technique="Lean 4 theorems over character-level models of the formatters/parsers + differential correspondence against the library and the platform parser",
+    design="§5 C19")
+
 NOT_YET = {}
 
 
